@@ -34,6 +34,11 @@ def _c(pid, engine, technique, level_text, level_note, design_ref):
 
 
 CHECKS = [
+    _c("C05", E1,
+       "symbolic execution (CrossHair+z3) of the stub printer, parser and verifier over generated stubs in the emitted dialect; parse/print fixed point plus a spec oracle for what was read",
+       "Bounded solver-certified exhaustive check for generated stubs: every bounded function signature, class shape and type form parses, verifies, matches the spec it was generated from, and is a fixed point of print-then-parse; canonical_pyi is idempotent. Stubs emitted for analysed programs are NOT covered (need the VM).",
+       "Trusted: CPython ast.parse on concrete text, CrossHair, z3. Outside: program-derived stubs, ParamSpec/Concatenate, names needing escaping.",
+       "DESIGN.md 4 C05"),
     _c("C16", E1,
        "symbolic execution (CrossHair+z3) of opcodes.build_opcodes, blocks.add_pop_block_targets/compute_order and cfg_utils.order_nodes over symbolic disassemblies and digraphs",
        "Bounded solver-certified exhaustive check on a superset of compiler output: for every bounded instruction list with symbolic jump targets, inline-cache gaps and exception-table entries, the opcode list is link-consistent with resolved jumps and correctly placed synthetic block markers, blocks partition the instructions, jump targets start blocks and the order lists every instruction-level reachable block once after a predecessor; for every digraph on N nodes order_nodes / compute_predecessors meet their contracts. One recorded finding (handler reachable only through SETUP_EXCEPT_311) is printed as KNOWN-FINDING and excluded.",
@@ -96,6 +101,5 @@ NOT_APPLICABLE = {
     "C15": "quantifies over source texts through compile -> blocks -> VM -> output; only the block-graph stage has an encodable kernel, claimed under C16",
     "C20": "merge_pyi parses with libcst's native parser and delegates the merge to libcst's ApplyTypeAnnotationsVisitor; the deciding code is third-party and largely native",
     # Planned in DESIGN.md; listed here until their check is committed:
-    "C05": "check under construction (DESIGN.md 4 C05); not claimed until committed",
     "C09": "check under construction (DESIGN.md 4 C09); not claimed until committed",
 }
